@@ -599,6 +599,41 @@ def _eigh(x, a, lazy=True):
     return sr.linalg.eigh(h)
 
 
+def solvable(x):
+    """square blocks, one block per row charge, not the open finding
+    (odd-parity fermionic matrix)"""
+    if not is_matrix(x) or fused_axes(x):
+        return False
+    if x.fermionic and G.parity(symm_of(x), x.charge):
+        return False
+    rows = [s[0] for s in x.blocks]
+    if len(set(rows)) != len(rows) or len(rows) != len(x.indices[0].chargemap):
+        return False
+    for b in x.blocks.values():
+        b = np.asarray(b)
+        if b.shape[0] != b.shape[1]:
+            return False
+        if abs(np.linalg.det(b)) < 1e-6 * (np.abs(b).max() ** b.shape[0] + 1e-300):
+            return False
+    return True
+
+
+def _draw_solve(ch, x, t):
+    ix0 = idx_specs_of(x)[0]
+    c_b = ch.choice(sorted(ix0["cm"]), t + ".bsector")
+    qb = G.signed(symm_of(x), c_b, ix0["dual"])
+    return {"y": partner_spec(ch, x, [ix0], t, charge=qb)}
+
+
+@register("solve", applicable=solvable, draw=_draw_solve, reads_blocks=True,
+          group="linalg")
+def _solve(x, a, lazy=True):
+    import symmray as sr
+
+    return sr.linalg.solve(x, build_partner(a["y"], lazy))
+
+
+
 # -------------------------------------------------------------- fermionic ---
 
 
